@@ -50,6 +50,15 @@ func allocated() uint64 {
 	return sample[0].Value.Uint64()
 }
 
+var stackSample = []metrics.Sample{{Name: "/memory/classes/heap/stacks:bytes"}}
+
+// stackBytes is the memory currently reserved for goroutine stacks (a stack that grew during
+// a call stays that large until a later garbage collection shrinks it).
+func stackBytes() uint64 {
+	metrics.Read(stackSample)
+	return stackSample[0].Value.Uint64()
+}
+
 // DeclaredBinary over-approximates the sizes the input consistently declares: the sum of the
 // total-body fields of every consistent header at any offset carrying the request magic.
 func DeclaredBinary(in []byte) uint64 {
@@ -125,6 +134,7 @@ type Result struct {
 	Skipped   bool
 	Parses    int
 	Allocated uint64
+	Stack     uint64 // growth of goroutine stack memory during the run
 	Bound     uint64
 	Reads     int
 	LastErr   string
@@ -157,6 +167,7 @@ func Check(bin bool, in []byte, step int) (res Result) {
 		parser = textprot.NewTextParser(br)
 	}
 	before := allocated()
+	stackBefore := stackBytes()
 	defer func() {
 		if r := recover(); r != nil {
 			res.Violation = fmt.Sprintf("parser panicked: %v", r)
@@ -183,6 +194,9 @@ func Check(bin bool, in []byte, step int) (res Result) {
 		}
 	}
 	res.Allocated = allocated() - before
+	if sb := stackBytes(); sb > stackBefore {
+		res.Stack = sb - stackBefore
+	}
 	res.Reads = cr.reads
 	maxReads := len(in) + 8
 	if step > 0 {
@@ -197,6 +211,9 @@ func Check(bin bool, in []byte, step int) (res Result) {
 		} else {
 			res.Violation = "allocation beyond constant + consistently declared sizes + supplied bytes"
 		}
+	}
+	if res.Violation == "" && res.Stack > res.Bound {
+		res.Violation = "goroutine stack grows with the input beyond constant + declared sizes + supplied bytes (recursion per request)"
 	}
 	return
 }
